@@ -208,8 +208,10 @@ def r7_cursor_loops(text):
         b = '&mut ' if mutk == 'iter_mut' else '&'
         ix = idx if idx else f'{var}_ix'
         bind = f'let {var} = {b}{xs}[{ix}];' if not deref_pat else f'let {var} = {xs}[{ix}];'
+        # iter_mut: a ghost snapshot of the whole sequence taken before the element is borrowed (proof overlays name it `<var>_all`)
+        snap = f'let ghost {var}_all = {xs}@;\n{ind}    ' if mutk == 'iter_mut' else ''
         return (f'{ind}let mut {cur}: usize = 0;\n{ind}while {cur} < {xs}.len()\n{ind}    /*@LOOPSPEC*/\n{ind}{{\n'
-                f'{ind}    let {ix} = {cur}; {cur} += 1;\n{ind}    {bind}')
+                f'{ind}    let {ix} = {cur}; {cur} += 1;\n{ind}    {snap}{bind}')
 
     def repl_enum(m):
         return mk(m.group(1), m.group(2), m.group(3), m.group(4), m.group(5), cursor=m.group(2) + '_nx')
@@ -583,4 +585,17 @@ def r12_filter_count(text):
         return ('let mut %s_n: usize = 0;\n        let mut %s_nx: usize = 0;\n        while %s_nx < %s.len() /*@LOOPSPEC*/\n        {\n'
                 '            let %s = &%s[%s_nx]; %s_nx += 1;\n            if %s { %s_n += 1; }\n        }\n        let %s = %s_n;'
                 % (x, c, c, e, c, e, c, c, cond, x, x, x))
+    return pat.subn(sub, text)
+
+
+def r12_position(text):
+    """`if let Some(I) = E.iter().position(|c| COND) {`  ->  a search cursor loop (COND kept verbatim) followed by `if let Some(I) = I_pos {`:
+        let mut I_pos: Option<usize> = None; let mut c_nx: usize = 0;
+        while c_nx < E.len() /*@LOOPSPEC*/ { let c = &E[c_nx]; if COND { I_pos = Some(c_nx); break; } c_nx += 1; }"""
+    pat = re.compile(r'(?m)^(\s*)if let Some\((\w+)\) = (\w+(?:\.\w+)*)\s*\.iter\(\)\s*\.position\(\|(\w+)\| (.*?)\) \{$', re.S)
+    def sub(m):
+        ind, i, e, c, cond = m.group(1), m.group(2), m.group(3), m.group(4), m.group(5).strip()
+        return (f'{ind}let mut {i}_pos: Option<usize> = None;\n{ind}let mut {c}_nx: usize = 0;\n{ind}while {c}_nx < {e}.len()\n{ind}    /*@LOOPSPEC*/\n{ind}{{\n'
+                f'{ind}    let {c} = &{e}[{c}_nx];\n{ind}    if {cond} {{ {i}_pos = Some({c}_nx); break; }}\n{ind}    {c}_nx += 1;\n{ind}}}\n'
+                f'{ind}if let Some({i}) = {i}_pos {{')
     return pat.subn(sub, text)
